@@ -76,7 +76,8 @@ type runner struct {
 
 var cur struct {
 	sync.Mutex
-	r *runner
+	r     *runner
+	conns []net.Conn // accepted data connections (closed by attachmon to simulate a dropped connection)
 }
 
 func rc(err error) string {
@@ -326,6 +327,39 @@ func (r *runner) attach() (string, string) {
 	return "ok", ""
 }
 
+// attachmon: attach through the real remote.Factory.Create, let the connection idle, drop it from the replica's
+// side (mode "drop") or corrupt it (mode "garbage"), and wait for the failure to be reported on the
+// backend's monitor channel (that message is what makes the controller detach the replica)
+func (r *runner) attachmon(op Op) (string, string) {
+	cur.Lock()
+	cur.r = r
+	cur.conns = nil
+	cur.Unlock()
+	be, err := remote.New().Create(fmt.Sprintf("127.0.0.1:%d", r.port))
+	if err != nil {
+		return "err", "create: " + err.Error()
+	}
+	time.Sleep(time.Duration(op.N) * time.Millisecond)
+	cur.Lock()
+	conns := cur.conns
+	cur.conns = nil
+	cur.Unlock()
+	for _, c := range conns {
+		if op.Mode == "garbage" {
+			c.Write([]byte("this is not a jiva frame, definitely not............"))
+		} else {
+			c.Close()
+		}
+	}
+	t0 := time.Now()
+	select {
+	case <-be.GetMonitorChannel():
+		return "ok", fmt.Sprintf("reported after %v", time.Since(t0))
+	case <-time.After(6 * time.Second):
+		return "err", "transport failure not reported on the monitor channel within 6s"
+	}
+}
+
 // conc: N goroutines x M writes each on an open RW replica; the counter must advance by exactly N*M.
 func (r *runner) conc(op Op) (string, string) {
 	var wg sync.WaitGroup
@@ -403,6 +437,8 @@ func runCase(c Case, work string, port int) Out {
 			res, note = r.attach()
 		case "conc":
 			res, note = r.conc(op)
+		case "attachmon":
+			res, note = r.attachmon(op)
 		default:
 			res, note = "err", "unknown kind"
 		}
@@ -438,6 +474,7 @@ func listen(port int) error {
 			}
 			cur.Lock()
 			r := cur.r
+			cur.conns = append(cur.conns, conn)
 			cur.Unlock()
 			srv := rpc.NewServer(conn, r.s)
 			go srv.Handle()
